@@ -95,6 +95,44 @@ fn check_case<'a>(b: &'a AllBuilder<'a>, c: &Case, params: &[(Vec<(u32, u32)>, W
             }
         }
     }
+    // smoothing over a proper prefix: when the function depends only on variables of the first k
+    // levels, the smoothed diagram is a diagram over exactly those variables and its count is the
+    // brute-force sum over their assignments (the other variables' weights do not enter)
+    if c.k < nv {
+        let prefix: Vec<usize> = (0..nv).filter(|&v| levels[v] < c.k).collect();
+        let sup = tt::support_mask(t, nv);
+        if (0..nv).all(|v| (sup >> v) & 1 == 0 || levels[v] < c.k) {
+            for (w, prm) in params.iter() {
+                let mut want = 0u64;
+                for a in 0..(1usize << prefix.len()) {
+                    // assignment of all variables: prefix variables from `a`, the others false
+                    let mut full = 0usize;
+                    let mut p = 1u64;
+                    for (i, &v) in prefix.iter().enumerate() {
+                        let bit = (a >> i) & 1 == 1;
+                        if bit {
+                            full |= 1 << v;
+                        }
+                        p *= if bit { w[v].1 } else { w[v].0 } as u64;
+                    }
+                    if tt::eval(t, full) {
+                        want += p;
+                    }
+                }
+                let gotw = match guarded(|| s.unsmoothed_wmc(prm)) {
+                    Ok(x) => x.0,
+                    Err(e) => return Some(("panic".into(), format!("wmc of the smoothed diagram panicked: {}", e))),
+                };
+                *evals += 1;
+                if gotw != want as f64 {
+                    return Some((
+                        "count-wrong".into(),
+                        format!("count of smooth(f, {}) (f depends only on the first {} levels) under (low, high) weights {:?} is {} but the sum over the assignments of those levels' variables is {}", c.k, c.k, w, gotw, want),
+                    ));
+                }
+            }
+        }
+    }
     if c.k == nv {
         for (w, prm) in params.iter() {
             let want = brute(t, nv, w);
